@@ -279,6 +279,13 @@ def apply_files_order(ctx, case, info, rs, k2):
         if key in k3:
             k3[key] = [k3[key][pos[r]] for r in order]
     ctx.count('explicit-files-in-caller-order')
+    if ctx.lean is not None:
+        # the model of the assembly: chains sorted by name, each with the data of the file its name was derived from
+        nm_ = k3.get('names') or ['ensA|r%d' % r for r in order]
+        mr = ctx.lean.call({'op': 'assemblefiles', 'names': list(nm_), 'tags': [int(r) for r in order]})
+        want_ = sorted(zip(nm_, [int(r) for r in order]))
+        if '_err' in mr or [tuple(p_) for p_ in mr['pairs']] != want_:
+            ctx.disagree('file-assembly-model', {'case': case, 'info': 'model %r vs expectation %r' % (mr, want_)})
     return k3
 
 
